@@ -406,24 +406,22 @@ func (w *World) checkFallbackPosition(r *Report, fd *ast.FuncDecl, sw *ast.Switc
 	}
 	hasLookup := false
 	notFound := func(b *ssa.BasicBlock, i int) bool {
-		v, trueIdx, ok := ifCond(b)
-		if !ok {
-			return false
-		}
-		if ex, ok := v.(*ssa.Extract); ok && ex.Index == 1 {
-			if lk, ok := ex.Tuple.(*ssa.Lookup); ok {
-				if _, ok := fieldLoad(lk.X, "Environment", "filters"); ok {
-					hasLookup = true
-					return i != trueIdx
+		return anyEdgeFact(b, i, func(v ssa.Value, trueIdx int) bool {
+			if ex, ok := v.(*ssa.Extract); ok && ex.Index == 1 {
+				if lk, ok := ex.Tuple.(*ssa.Lookup); ok {
+					if _, ok := fieldLoad(lk.X, "Environment", "filters"); ok {
+						hasLookup = true
+						return i != trueIdx
+					}
 				}
 			}
-		}
-		// ctx.env == nil: no registered filters at all
-		if bo, ok := v.(*ssa.BinOp); ok && isNilConst(bo.Y) && isNamed(bo.X.Type(), twigPath, "Environment") {
-			isNil := (bo.Op == token.EQL) == (i == trueIdx)
-			return isNil
-		}
-		return false
+			// ctx.env == nil: no registered filters at all
+			if bo, ok := v.(*ssa.BinOp); ok && isNilConst(bo.Y) && isNamed(bo.X.Type(), twigPath, "Environment") {
+				isNil := (bo.Op == token.EQL) == (i == trueIdx)
+				return isNil
+			}
+			return false
+		})
 	}
 	for _, b := range fn.Blocks {
 		for i := range b.Succs {
